@@ -560,15 +560,27 @@ fn has_action_key(keys: &Vec<KeyCode>) -> (r: bool)
 }
 
 //@ C04 C05 C14 | default: fn is_any_modifier
-// ASSUMED contract (external_body): the body is the iterator adapter `.iter().any(closure)`, for which this Verus has no usable
-// specification; the contract is validated on every run by an exhaustive bounded comparison in the harness (extras: anymod_bounded).
-#[verifier::external_body]
+// The body is `keys.iter().any(closure)`; extraction rule N4 writes the adapter out as the short-circuiting index loop it stands for
+// (validated by differential execution, thorough tier, and by the exhaustive bounded comparison `anymod_bounded` on every run).
 fn is_any_modifier(keys: &Vec<KeyCode>) -> (r: bool)
   ensures
-    //@ C04 C05 | ASSUMED: true iff the list contains a modifier
+    //@ C04 C05 | true iff the list contains a modifier
     r == has_mod(keys@),
   { //@ | body
-  keys.iter().any(|k| !is_action_key(k))
+  { let mut __any = false; let mut __j: usize = 0; while __j < keys.len()
+    invariant_except_break
+      //@  | frame / auxiliary
+      __j <= keys.len(),
+      !__any,
+      forall|i: int| 0 <= i < __j ==> !is_mod(#[trigger] keys@[i]),
+    ensures
+      __any ==> has_mod(keys@),
+      !__any ==> !has_mod(keys@),
+    decreases keys.len() - __j,
+    { //@ | body
+    let k = &keys[__j]; if !is_action_key(k) { __any = true;
+      proof { assert(is_mod(keys@[__j as int])); }
+      break; } __j += 1; } __any }
 }
 
 //@ C01 C02 C04 C05 C07 C09 C14 C19 | default: fn release_action_mappings
